@@ -27,14 +27,15 @@ def _idx(e: ast.expr, var: str) -> int | None:
     return None
 
 
-def tiling_idiom(fn: ast.FunctionDef, req: str) -> tuple[bool, str]:
-    """recognises the three tiling idioms over [req[0], req[1]) with step segment_len"""
+def tiling_idiom(fn: ast.FunctionDef, req: str, bounds: tuple[str, str] | None = None) -> tuple[bool, str]:
+    """recognises the three tiling idioms over [req[0], req[1]) (or over [bounds[0], bounds[1]) when the loop lives in a
+    helper that receives the two offsets as separate parameters) with step segment_len"""
     loops = [n for n in ast.walk(fn) if isinstance(n, (ast.While, ast.For))]
     if len(loops) != 1:
         return False, f"{len(loops)} loops"
     lp = loops[0]
     src = {ast.unparse(s.targets[0]): ast.unparse(s.value) for s in ast.walk(fn) if isinstance(s, ast.Assign) and len(s.targets) == 1 and isinstance(s.targets[0], ast.Name) and s.lineno < lp.lineno}
-    start, end = f"{req}[0]", f"{req}[1]"
+    start, end = bounds if bounds else (f"{req}[0]", f"{req}[1]")
     calls = [n for n in ast.walk(lp) if isinstance(n, ast.Call) and isinstance(n.func, ast.Attribute) and isinstance(n.func.value, ast.Name) and n.func.value.id == "self"
              and len(n.args) == 2 and not n.keywords]
     if len(calls) != 1 or len(calls[0].args) != 2:
@@ -120,12 +121,25 @@ def check(ctx: Ctx, ev: Evidence) -> list[Finding]:
             continue
         if any(isinstance(n, (ast.While, ast.For)) for n in ast.walk(f.node)) and any(
                 isinstance(n, ast.Subscript) and isinstance(n.value, ast.Name) and n.value.id == f.params[1] for n in ast.walk(f.node)):
-            loopers.append(f)
+            loopers.append((f, None))
+    if not loopers:
+        # the loop may have been extracted into a helper that receives the request's two offsets as separate parameters
+        for q in sorted(reach):
+            g = prog.functions.get(q)
+            if g is None or g.cls != SRC:
+                continue
+            for c in [n for n in ast.walk(g.node) if isinstance(n, ast.Call) and isinstance(n.func, ast.Attribute) and ast.unparse(n.func.value) == "self" and len(n.args) == 2]:
+                a0, a1 = c.args
+                if isinstance(a0, ast.Subscript) and isinstance(a1, ast.Subscript) and ast.unparse(a0.value) == ast.unparse(a1.value) \
+                        and ast.unparse(a0.slice) == "0" and ast.unparse(a1.slice) == "1":
+                    callee = prog.functions.get(f"{SRC}.{c.func.attr}")
+                    if callee is not None and len(callee.params) == 3 and any(isinstance(n, (ast.While, ast.For)) for n in ast.walk(callee.node)):
+                        loopers.append((callee, (callee.params[1], callee.params[2])))
     if not loopers:
         raise AnalysisError("no chunking loop over a segment request found behind the NAK servicing entry")
-    for hs in loopers:
+    for hs, bounds in loopers:
         req = hs.params[1]
-        ok, why = tiling_idiom(hs.node, req)
+        ok, why = tiling_idiom(hs.node, req, bounds)
         ev.inst("C08-R2", f"{hs.name}: {why}", "ok" if ok else "violation", loc(hs, hs.node))
         if not ok:
             out.append(Finding("C08-R2", f"{hs.qualname} | chunking loop | {why[:100]}", f"the retransmission loop is not a tiling of the requested range: {why}", loc(hs, hs.node)))
